@@ -110,7 +110,7 @@ func TestVerifReplay(t *testing.T) {
 	}
 }
 `, w, p1, p2)
-	out, _ := runOverlayTest("/repo", "pkg/bmnumbers", "TestVerifReplay", src, 60*time.Second)
+	out, _ := runOverlayTest(c.repo, "pkg/bmnumbers", "TestVerifReplay", src, 60*time.Second)
 	rr := &replayResult{Input: fmt.Sprintf("literal %q against patterns %q and %q", w, p1, p2)}
 	var lines []string
 	for _, l := range strings.Split(out, "\n") {
@@ -155,7 +155,8 @@ func cmdReplay(args []string) {
 	}
 }
 
-// c14Canary replays the circuit of known finding F3 on the real compiler: two two-qubit gates in one layer on
+// c14Canary replays the circuit of finding F3 (repaired; the entry in known_findings.json is 'fixed' and suppresses
+// nothing, so a recurrence is a violation with this circuit as the failing input) on the real compiler: two two-qubit gates in one layer on
 // interleaved qubits (cx a c ; cx b d on a:b:c:d). When the compiled matrix equals the one of the adjacent circuit
 // (cx a b ; cx c d) the defect is still present. This is a replay of a recorded failing input, not a proof.
 func c14Canary(c *checkRun) {
@@ -205,9 +206,16 @@ func TestVerifReplay(t *testing.T) {
 	fmt.Printf("REPLAY interleaved_equals_adjacent=%t n=%d\n", same, m1.N)
 }
 `
-	out, _ := runOverlayTest("/repo", "pkg/bmqsim", "TestVerifReplay", src, 60*time.Second)
+	out, _ := runOverlayTest(c.repo, "pkg/bmqsim", "TestVerifReplay", src, 60*time.Second)
 	if strings.Contains(out, "REPLAY interleaved_equals_adjacent=true") {
-		c.canaries = append(c.canaries, "bmqsim.BmQSimulator.BmMatrixFromOperation#replay[interleaved_two_qubit_gates]")
+		name := "bmqsim.BmQSimulator.BmMatrixFromOperation#replay[interleaved_two_qubit_gates]"
+		c.canaries = append(c.canaries, name)
+		if c.canaryReplay == nil {
+			c.canaryReplay = map[string]*replayResult{}
+		}
+		c.canaryReplay[name] = &replayResult{Confirmed: true,
+			Input:    "qubits a:b:c:d, one layer: cx a c ; cx b d (compared with the layer cx a b ; cx c d)",
+			Observed: "BmMatrixFromOperation returns the same 16x16 matrix for both layers (overlay test in pkg/bmqsim on the real code)"}
 	} else if !strings.Contains(out, "REPLAY interleaved_equals_adjacent=false") {
 		c.warnings = append(c.warnings, "C14 canary replay did not run: "+truncateOut(out, 300))
 	}
